@@ -11,6 +11,8 @@ import (
 	"unicode/utf8"
 )
 
+const maxSplitSize = 16 // symbolic sizes 0..12 are enumerated; larger ones must be excluded by the harness
+
 const maxPermutedMap = 4 // larger maps are ranged in canonical order (stated bound)
 
 const maxAlloc = 1 << 24 // elements; larger allocations are treated like Go's makeslice panic / OOM
@@ -59,18 +61,18 @@ func (e *explorer) concreteSize(v value, what string) int64 {
 	e.stats.ImplicitChecks++
 	bits := kindBits(si.k)
 	xt := e.abbrev(si.t, bvsort(bits))
-	small := "(and (bvsle " + bvlit(0, bits) + " " + xt + ") (bvsle " + xt + " " + bvlit(64, bits) + "))"
+	small := "(and (bvsle " + bvlit(0, bits) + " " + xt + ") (bvsle " + xt + " " + bvlit(maxSplitSize, bits) + "))"
 	if e.decide(small, what) {
-		return e.splitInt(symI{xt, si.k}, 0, 64, what)
+		return e.splitInt(symI{xt, si.k}, 0, maxSplitSize, what)
 	}
 	if e.decide("(bvslt "+xt+" "+bvlit(0, bits)+")", what) {
 		return -1
 	}
-	// > 64: is it huge (panic) or merely large?
+	// larger: is it huge (panic) or merely large?
 	if e.decide("(bvsgt "+xt+" "+bvlit(maxAlloc, bits)+")", what) {
 		return maxAlloc + 1
 	}
-	panic(unsupported("symbolic %s between 65 and %d", what, maxAlloc))
+	panic(unsupported("symbolic %s between %d and %d", what, maxSplitSize+1, maxAlloc))
 }
 
 func symSlice(e *explorer, x, lo, hi, max value) value {
